@@ -691,13 +691,70 @@ func (a *ownAnalysis) nilExcluded(fc *FCFG, n ast.Node, key string) bool {
 				continue
 			}
 			for _, at := range impliedAtoms(fc.CondOf(b), edge == 0) {
-				if hit(at) {
+				if hit(at) || a.nonNilHelperExcludesNil(at, key, isNilM) {
 					return true
 				}
 			}
 		}
 	}
 	return false
+}
+
+// nonNilHelperExcludesNil: the atom says `x != nil` where x := h(…, <key>, …) is the single definition of a
+// local by a call of an unexported function of the package, and every non-nil return of h lies behind the
+// false side of <param>.IsNil() for the parameter that receives <key> (`mac := macroCallee(env, form);
+// if mac == nil { return form }` — macroCallee answers nil for the empty list).
+func (a *ownAnalysis) nonNilHelperExcludesNil(at LitAtom, key string, isNilM *types.Func) bool {
+	be, ok := ast.Unparen(at.E).(*ast.BinaryExpr)
+	if !ok || (be.Op != token.EQL && be.Op != token.NEQ) {
+		return false
+	}
+	x := be.X
+	if isNilIdent(a.info, be.X) {
+		x = be.Y
+	} else if !isNilIdent(a.info, be.Y) {
+		return false
+	}
+	// the atom must say "non-nil"
+	if (be.Op == token.NEQ) != at.Positive {
+		return false
+	}
+	d := soleDef(a.info, a.u.Decl.Body, x)
+	if d == nil {
+		return false
+	}
+	hc, ok := ast.Unparen(d).(*ast.CallExpr)
+	if !ok {
+		return false
+	}
+	h := originOf(Callee(a.info, hc))
+	if h == nil || h.Pkg() != a.u.Obj.Pkg() || h.Exported() {
+		return false
+	}
+	sig := h.Type().(*types.Signature)
+	var po types.Object
+	for i, arg := range hc.Args {
+		if i < sig.Params().Len() && a.resolvedKey(arg, 0) == key {
+			po = sig.Params().At(i)
+		}
+	}
+	if po == nil {
+		return false
+	}
+	cls := func(hi *types.Info) func(e ast.Expr) (string, bool) {
+		return func(e ast.Expr) (string, bool) {
+			ce, ok := ast.Unparen(e).(*ast.CallExpr)
+			if !ok || len(ce.Args) != 0 || originOf(Callee(hi, ce)) != isNilM {
+				return "", false
+			}
+			se, ok := ast.Unparen(ce.Fun).(*ast.SelectorExpr)
+			if !ok || identObj(hi, se.X) != po {
+				return "", false
+			}
+			return "isnil", false
+		}
+	}
+	return a.c.helperNonNilEntails(h, cls, func(v map[string]bool) bool { return v["$has:isnil"] && !v["isnil"] })
 }
 
 // guardBound: the lower bound on len(<key>.Cells) that holds when cond is false.
